@@ -79,6 +79,12 @@ def vectors(rng, st, tree, count):
     lv = G.leaves_of(tree)
     out = [[(3 + 4 * i) % 11 + 1 for i in range(len(lv))],
            [-((2 + 5 * i) % 9 + 1) for i in range(len(lv))]]
+    # top bit of the first operand's own width set, every other operand a small positive number: the
+    # corner where signedness of shifts, divisions and extensions shows (added after an independently seeded
+    # change - unsigned >> signed amount emitted as an arithmetic shift - was caught by only 2 runs)
+    out.append([((1 << (8 * st["inputs"][0][1] - 1)) | 0x10) if i == 0 else (i % 3) + 1
+                for i in range(len(lv))])
+    count += 1
     while len(out) < count:
         v = []
         for (off, size, signed) in st["inputs"]:
